@@ -223,6 +223,7 @@ func (w *world) faults() {
 		if c.Thorough {
 			readSizes = []int{0, 1, 22, 23, 4096} // thorough: every fault with every read size
 		}
+		c.Eval(len(readSizes) - 1)
 		for _, rs := range readSizes {
 			w.judgeFault(j.rep, j.off, s, msg, rs, detail, &mu, identical)
 		}
